@@ -136,8 +136,37 @@ def sig_slices(kinds, sig):
     return out
 
 
-def averaged_dose_rows(ctx, tag, avg_model, doses, times, include, inp):
+def expected_dose_events(regimen, T):
+    """(time, duration, dose) of every dose the configured regimen applies up to T — from the regimen's own
+    numbers, not from chi's table"""
+    if not regimen:
+        return []
+    p, num = regimen.get('period'), regimen.get('num')
+    rows, k = [], 0
+    while True:
+        t = regimen['start'] + k * (p or 0.0)
+        if t > T or (num and k >= num) or (not p and k >= 1):
+            break
+        rows.append((float(t), float(regimen['duration']), float(regimen['dose'])))
+        k += 1
+    return rows
+
+
+def dose_events_spec(ctx, tag, doses, regimen, times, include, inp):
+    """the dose rows of the returned table are exactly the dose events of the configured regimen up to the
+    last requested time, for every sample ID that carries dose rows (or once, without ID)"""
+    exp = sorted(expected_dose_events(regimen, float(np.max(times)))) if include else []
+    groups = {}
+    for r in doses:
+        groups.setdefault(r[0], []).append(tuple(r[1:]))
+    ok = (not exp and not doses) or (bool(groups) and all(rows_close(sorted(g), exp) for g in groups.values()))
+    ctx.spec(tag, bool(ok), inp, {'dose rows': doses[:6], 'dose events of the regimen': exp[:6]})
+
+
+def averaged_dose_rows(ctx, tag, avg_model, doses, times, include, inp, regimen='chi'):
     """prior / posterior / PAM models: the dose events are appended once for all samples (no ID)"""
+    if regimen != 'chi':
+        dose_events_spec(ctx, tag.replace('.dose_rows', '.dose_events'), doses, regimen, times, include, inp)
     reg = avg_model.get_dosing_regimen(final_time=float(np.max(times)))
     want = []
     if include and reg is not None:
@@ -357,6 +386,7 @@ def case_predictive(ctx, chi, rng, k):
     ctx.agree('C15.dose_rows/PredictiveModel', doses, sorted(want), inp)
     ctx.spec('C15.table_labels/PredictiveModel.dose_rows',
              rows_close(doses, sorted(want)), inp, {'doses': doses[:4], 'want': want[:4]})
+    dose_events_spec(ctx, 'C15.table_labels/PredictiveModel.dose_events', doses, regimen, times, include, inp)
     # a later call on the same object
     fresh, _, _, _ = build(chi, spec, dosed=dosed)
     if dosed:
@@ -461,6 +491,8 @@ def case_population(ctx, chi, rng, k):
             want.append((i,) + regrows[j])
     ctx.agree('C15.dose_rows/PopulationPredictiveModel', doses, sorted(want), inp)
     ctx.spec('C15.table_labels/PopulationPredictiveModel.dose_rows', rows_close(doses, sorted(want)), inp)
+    dose_events_spec(ctx, 'C15.table_labels/PopulationPredictiveModel.dose_events', doses,
+                     REGIMEN if dosed else None, times, include, inp)
     # a later call on the same object (another sample size, other times)
     fresh, _, _, fpop = build(chi, spec, dosed=dosed)
     fpop.set_n_ids(stored)
@@ -548,7 +580,8 @@ def case_prior(ctx, chi, rng, k):
     meas, _, doses = canon_rows(df, outputs)
     ts = model_sorted_times(ctx, times)
     label_spec(ctx, 'C15.table_labels/PriorPredictiveModel', meas, n, outputs, times, inp, df)
-    averaged_dose_rows(ctx, 'C15.table_labels/PriorPredictiveModel.dose_rows', prm, doses, times, include, inp)
+    averaged_dose_rows(ctx, 'C15.table_labels/PriorPredictiveModel.dose_rows', prm, doses, times, include, inp,
+                       regimen=REGIMEN if dosed else None)
     bounds = {'ids': spec['pop']['n_ids']} if spec['type'] == 'pop' else {}
     # a complete parameter set per sample, drawn from the prior
     keep = np.random.get_state()
@@ -630,10 +663,21 @@ def case_posterior(ctx, chi, rng, k, layout=None):
     model_names = model.get_parameter_names()
     # the dataset may name its variables differently (param_map)
     param_map = {}
-    if rng.random() < 0.4:
+    r_map = rng.random()
+    if r_map < 0.3:
         for nm in model_names:
             if rng.random() < 0.6:
                 param_map[nm] = 'post ' + nm
+    elif r_map < 0.55 and len(model_names) >= 2:
+        # the dataset uses the model's own names for OTHER parameters: a cycle (a->b, b->c, c->a) or a chain
+        # (a->b, b->c, c->'post c') — every name is still looked up exactly once
+        sel = [int(j) for j in rng.choice(len(model_names), size=int(rng.integers(2, len(model_names) + 1)),
+                                          replace=False)]
+        cyc = bool(rng.random() < 0.6)
+        for a, b in zip(sel, sel[1:] + ([sel[0]] if cyc else [])):
+            param_map[model_names[a]] = model_names[b]
+        if not cyc:
+            param_map[model_names[sel[-1]]] = 'post ' + model_names[sel[-1]]
     names = [param_map.get(nm, nm) for nm in model_names]
     base = spec['psi'] + spec['sig'] if spec['type'] == 'indiv' else spec['theta']
     n_chains, n_draws = int(rng.integers(1, 4)), int(rng.integers(2, 5))
@@ -675,7 +719,8 @@ def case_posterior(ctx, chi, rng, k, layout=None):
         meas, _, doses = canon_rows(df, outputs)
         ts = model_sorted_times(ctx, times)
         label_spec(ctx, 'C15.table_labels/PosteriorPredictiveModel', meas, n, outputs, times, inp, df)
-        averaged_dose_rows(ctx, 'C15.table_labels/PosteriorPredictiveModel.dose_rows', ppm, doses, times, include, inp)
+        averaged_dose_rows(ctx, 'C15.table_labels/PosteriorPredictiveModel.dose_rows', ppm, doses, times, include, inp,
+                           regimen=REGIMEN if dosed else None)
         # the parameter vectors handed to the wrapped model
         if spec['type'] == 'indiv':
             drawn = [list(v) for v in pm.seen]
